@@ -190,4 +190,75 @@ def run : State → List Op → State
   | s, [] => s
   | s, op :: r => run (step s op).1 r
 
+/-! ### path cursors (extension mqtt): the pointer semantics used by the regenerated `insert`
+
+`TopicManager.insert` walks the trie with a mutable `*topicNode` cursor. The translation (`facts_c14_ir.go`)
+reads a pointer as the PATH of the node below the root (sound because the heap is a tree: every node is created
+by `newNode()` and linked under exactly one parent, nothing is ever shared), plus a flag for a node that has
+been allocated but not linked yet. Reads and writes through a pointer are reads / updates of the functional
+trie at that path. -/
+
+structure Ptr where
+  path : List Level
+  /-- allocated by `newNode()` and not yet stored anywhere (its content is `Trie.empty`) -/
+  fresh : Bool
+
+/-- the node at a path (`none`: the path leaves the trie) -/
+def ptrSub : List Level → Trie → Option Trie
+  | [], t => some t
+  | l :: p, .node _ ch =>
+    match alGet l ch with
+    | some c => ptrSub p c
+    | none => none
+
+/-- apply `f` to the node at a path (nothing changes if the path leaves the trie) -/
+def ptrUpd : List Level → (Trie → Trie) → Trie → Trie
+  | [], f, t => f t
+  | l :: p, f, .node cl ch =>
+    match alGet l ch with
+    | some c => .node cl (alSet l (ptrUpd p f c) ch)
+    | none => .node cl ch
+
+/-- `nextNode, ok = node.nodes[l]`: the child pointer and whether it exists -/
+def childPtr (root : Trie) (p : Ptr) (l : Level) : Ptr × Bool :=
+  (⟨p.path ++ [l], false⟩,
+   match ptrSub p.path root with
+   | some n => (alGet l n.children).isSome
+   | none => false)
+
+/-- `node.nodes[l] = q`: link the node `q` denotes (a fresh node is empty) as child `l` of `node` -/
+def linkPtr (root : Trie) (p : Ptr) (l : Level) (q : Ptr) : Trie :=
+  let sub : Trie := if q.fresh then Trie.empty else (ptrSub q.path root).getD Trie.empty
+  ptrUpd p.path (fun n => .node n.clients (alSet l sub n.children)) root
+
+/-- `node.clients[c] = q` -/
+def setClientPtr (root : Trie) (p : Ptr) (c : Client) (q : QoS) : Trie :=
+  ptrUpd p.path (fun n => .node (alSet c q n.clients) n.children) root
+
+/-- `delete(node.clients, c)` -/
+def delClientPtr (root : Trie) (p : Ptr) (c : Client) : Trie :=
+  ptrUpd p.path (fun n => .node (alErase c n.clients) n.children) root
+
+/-- `delete(node.nodes, l)` -/
+def unlinkPtr (root : Trie) (p : Ptr) (l : Level) : Trie :=
+  ptrUpd p.path (fun n => .node n.clients (alErase l n.children)) root
+
+/-- `x.nodes[l]` (single-value read): the child pointer -/
+def childOf (p : Ptr) (l : Level) : Ptr := ⟨p.path ++ [l], false⟩
+
+/-- `len(node.clients) == 0 && len(node.nodes) == 0` reads the node at the pointer (a dangling pointer reads
+as an empty node; never happens in the translated functions) -/
+def nodeAt (root : Trie) (p : Ptr) : Trie := (ptrSub p.path root).getD Trie.empty
+
+/-! ### `topicNode.addClients` as the Go loop (extension mqtt; tied by translation in `facts_c15_ir.go`) -/
+
+/-- one iteration: `if old, ok := ans[client]; !ok || qos > old { ans[client] = qos }` -/
+def addMaxStep (ans : List (Client × QoS)) (p : Client × QoS) : List (Client × QoS) :=
+  match alGet p.1 ans with
+  | some old => if p.2 > old then alSet p.1 p.2 ans else ans
+  | none => alSet p.1 p.2 ans
+
+/-- `node.addClients(ans)`: the node's clients, in map iteration order, merged into `ans` keeping the maximum -/
+def addMax (cls ans : List (Client × QoS)) : List (Client × QoS) := cls.foldl addMaxStep ans
+
 end EgVerif.Topic
